@@ -65,3 +65,9 @@ claim('C12', 'exploration', 'metamorphic with/without relation on the real code:
       'at every depth and in multi-insertions; under ignore-unknown nothing observable may change and no diagnostic may appear, without the flag the text must be rejected with a diagnostic; unknown sections nested 10^2..10^5 deep must be skipped. '
       'The relation is metamorphic over insertion points and item shapes, which randomised systematic insertion explores.',
       'Trusts: the values-only tree hash; unknown items are well-formed by construction.')
+
+claim('C17', 'exploration', 'bounded-exhaustive search-path sequences x name forms against a reference resolver evaluated on a real fixture tree; same workload on ASan+UBSan, MemorySanitizer and valgrind memcheck builds',
+      'All search-path sequences to the length bound over a 13-directory pool (existing, missing, duplicate, tilde-prefixed, absolute, symlinked, literal ~nouser) are combined with names placed as file / directory / symlink / '
+      'dangling link / absent and with every tilde form; cfg_searchpath and cfg_tilde_expand results are compared with model_fs, and cfg_parse(name) / include(name) must load the file the model names (distinct markers). '
+      'The memory clause ("never depends on uninitialised memory") is decided by MemorySanitizer and memcheck on the same executions. Bounded enumeration fits: precedence and file-vs-directory discrimination are order effects over few directories.',
+      'Trusts: Python os.path.isfile / pwd as the reference for "regular file" and the passwd database; MSan sees only the reads these workloads perform.')
